@@ -200,6 +200,12 @@ def snapshot(kind, store):
                 md5 = store.md5(str(m.unique_id))
             except Exception as e:  # noqa: BLE001
                 md5 = f"<md5 raised {type(e).__name__}>"
+            try:
+                mmd5 = m.md5  # the member object lives as long as the store's member list: asked after every step
+            except Exception as e:  # noqa: BLE001
+                mmd5 = f"<md5 raised {type(e).__name__}>"
+            if mmd5 != md5:
+                out["errors"].append((which, i, mmd5, md5))
             out[which].setdefault(i, []).append((data, md5))
     return out
 
@@ -207,6 +213,8 @@ def snapshot(kind, store):
 def compare(snap, model: Model):
     """problems between a store snapshot and the model; list of (observable, affected id, got, want)"""
     probs = []
+    for which, i, mmd5, md5 in snap["errors"]:
+        probs.append((f"{which} member's own md5 differs from the store's md5 of that record", i, mmd5, md5))
     for which, want in (("completed", model.completed), ("nc", model.nc)):
         got = snap[which]
         want = dict(want)
